@@ -41,9 +41,41 @@ static void spy_dump(const char *dir, int slot, const void *p, size_t n) {
   printf(" %s%d=%zu:", dir, slot, n);
   for (size_t j = 0; p && j < n; j++) printf("%02x", b[j]);
 }
+/* with L2_PERTURB set (data harness only: no object arguments) the spy replays every well-formed
+   invocation with ONE input buffer size changed by -1 or +1 - on scratch copies of all buffers, so
+   the real call is not disturbed - and prints the status; the implementation's own "impl" line in
+   between shows whether it was entered.  The three skeletons must give the same verdicts (C04). */
+static int spy_perturb = -1;
+static void spy_perturb_all(ObjectOp op, ObjectArg *a, ObjectCounts k) {
+  size_t n = ObjectCounts_numBI(k) + ObjectCounts_numBO(k) + ObjectCounts_numOI(k) + ObjectCounts_numOO(k);
+  if (n == 0 || n > 60) return;
+  for (size_t tgt = 0; tgt < n; tgt++) for (int delta = -1; delta <= 1; delta += 2) {
+    /* object slots stay as they are (wherever they sit: the known interleaving of object-bearing
+       structs); every other slot is a buffer, input or output, and gets a scratch copy */
+    if (spy_is_object_slot(&a[tgt])) continue;
+    if (delta < 0 && a[tgt].b.size == 0) continue;
+    ObjectArg c[60]; void *scratch[60];
+    for (size_t i = 0; i < n; i++) {
+      scratch[i] = NULL;
+      if (spy_is_object_slot(&a[i])) { c[i] = a[i]; continue; }
+      size_t sz = a[i].b.size;
+      scratch[i] = calloc(1, sz + 16);
+      if (a[i].b.ptr) memcpy(scratch[i], a[i].b.ptr, sz);
+      c[i].b.ptr = scratch[i]; c[i].b.size = sz;
+    }
+    c[tgt].b.size = a[tgt].b.size + (size_t)delta;
+    sc_set(sc_val(), 0);
+    printf("perturb op=%d slot=%d delta=%d\n", (int)ObjectOp_methodID(op), (int)tgt, delta);
+    int32_t r = Object_invoke(spy_inner, op, c, k);
+    printf("perturbed op=%d slot=%d delta=%d refused=%d\n", (int)ObjectOp_methodID(op), (int)tgt, delta, r != Object_OK);
+    for (size_t i = 0; i < n; i++) free(scratch[i]);
+  }
+}
 static int32_t spy_invoke(ObjectCxt h, ObjectOp op, ObjectArg *a, ObjectCounts k) {
   (void)h;
   if (ObjectOp_isLocal(op)) return Object_invoke(spy_inner, op, a, k);
+  if (spy_perturb < 0) spy_perturb = getenv("L2_PERTURB") != NULL;
+  if (spy_perturb) { int v = sc_val(), st = sc_status(); if (st == 0) spy_perturb_all(op, a, k); sc_set(v, st); }
   if (spy_wire < 0) spy_wire = getenv("L2_WIRE") != NULL;
   if (spy_wire) {
     printf("wire op=%d k=0x%x", (int)ObjectOp_methodID(op), (unsigned)k);
